@@ -46,9 +46,19 @@ def run_groups(tape):
     from . import wl_groups as wl
     from .c21 import build_devices
 
-    env = Env(tape, faults=WireFaults(delay_buckets=(50e-6, 20e-6, 200e-6)))
+    # in a third of the runs the groups are fast ones (FastEtherCat, programs in the
+    # kernel): only those may be cancelled and started again without waiting in between
+    fast = tape.chance("c20g/fast-groups", 35)
+    env = Env(tape, with_kernel=fast, faults=WireFaults(delay_buckets=(50e-6, 20e-6, 200e-6)))
     world = env.world
-    ec = EtherCat("sim0")
+    if fast:
+        from ebpfcat.ebpfcat import FastEtherCat, FastSyncGroup
+        ec = FastEtherCat("sim0")
+        Group = FastSyncGroup
+        world.count("c20g/fast-groups")
+    else:
+        ec = EtherCat("sim0")
+        Group = SyncGroup
     specs = wl.gen_specs(tape, "c20g", max_terms=3, max_sz=6, allow_direct=False)
     for sp in specs:
         sp["n_fmmu"] = 2 + tape.draw("c20g/nfmmu", 4)
@@ -123,25 +133,29 @@ def run_groups(tape):
 
     async def run_group(g):
         await asyncio.sleep([0, 1e-3, 5e-3, 20e-3][tape.draw("c20g/start", 4)])
-        for session in range(1 + tape.draw("c20g/sessions", 2)):
-            sg = g["sg"] = SyncGroup(ec, g["devices"])
-            orig = sg.update_devices
+        nsessions = 1 + tape.draw("c20g/sessions", 2)
+        restarted = False
+        for session in range(nsessions):
+            if not restarted:
+                sg = g["sg"] = Group(ec, g["devices"])
+                orig = sg.update_devices
 
-            def update_devices(data, g=g, orig=orig):
-                g["cycles"] += 1
-                if g["state"] == "starting":
-                    g["state"] = "cycling"
-                    events.append(("cycling", g["gi"]))
-                    check(f"group {g['gi']} started cycling")
-                return orig(data)
-            sg.update_devices = update_devices
-            g["state"] = "starting"
-            try:
-                g["task"] = sg.start()
-            except Exception as e:
-                events.append(("refused", g["gi"], type(e).__name__))
-                g["state"] = "failed"
-                return
+                def update_devices(data, g=g, orig=orig):
+                    g["cycles"] += 1
+                    if g["state"] == "starting":
+                        g["state"] = "cycling"
+                        events.append(("cycling", g["gi"]))
+                        check(f"group {g['gi']} started cycling")
+                    return orig(data)
+                sg.update_devices = update_devices
+                g["state"] = "starting"
+                try:
+                    g["task"] = sg.start()
+                except Exception as e:
+                    events.append(("refused", g["gi"], type(e).__name__))
+                    g["state"] = "failed"
+                    return
+            restarted = False
             hold = [5e-3, 20e-3, 60e-3][tape.draw("c20g/hold", 3)]
             done, pending = await asyncio.wait([g["task"]], timeout=hold)
             if done:
@@ -150,6 +164,26 @@ def run_groups(tape):
                 events.append(("ended", g["gi"], type(e).__name__))
                 world.count(f"c20g/group-ended-{type(e).__name__}")
                 g["state"] = "failed"
+            elif fast and session + 1 < nsessions and tape.chance("c20g/restart-at-once", 50):
+                # the same group object is cancelled and started again at once: the old
+                # run winds down (its terminals go back to SAFE-OPERATIONAL, its FMMUs
+                # are released) while the new one already maps its own
+                check(f"before group {g['gi']} is restarted")
+                old = g["task"]
+                old.cancel()
+                g["state"] = "starting"
+                events.append(("restarted", g["gi"]))
+                world.count("c20g/group-cancelled-and-started-again-at-once")
+                try:
+                    g["task"] = sg.start()
+                    restarted = True
+                except Exception as e:
+                    events.append(("refused", g["gi"], type(e).__name__))
+                    g["state"] = "failed"
+                await asyncio.wait([old], timeout=1.0)
+                if not restarted:
+                    return
+                continue
             else:
                 check(f"before group {g['gi']} is stopped")
                 g["state"] = "stopping"
@@ -235,7 +269,8 @@ def run(tape, scenario):
     violations = []
     events = []
     max_live = [0]
-    next_logical = [0x10000]
+    # (in some runs the first window handed out is the one at logical address 0)
+    next_logical = [0 if tape.chance("c20/windows-start-at-zero", 30) else 0x10000]
 
     def viol(rule, detail, **params):
         if not violations:
